@@ -248,6 +248,9 @@ def job(args):
         try:
             w.call('pdesolver', 'solvePDE', phi, [Mt], ext)
             G = tuple(ZERO if k == 0 else w.t[k] for k in range(d))
+            if not rec:
+                ob('P4', f"pdesolver.solvePDE/BCs.modified={bdirty},value.modified={vd}", False, "solvePDE returned without handing the system to any solver", fs.loc())
+                continue
             row = F.row_by_col(w, w.matrix_row(rec[0][0], G))
             names = {atom_key(a)[0] for (c, v) in row.values() for a in v.atoms() if isinstance(atom_key(a), tuple)}
             ob('P4', f"pdesolver.solvePDE/BCs.modified={bdirty},value.modified={vd}", 'stale' not in names and 'bc' in names,
@@ -271,6 +274,8 @@ def job(args):
         w.call('pdesolver', 'solvePDE', v1, [Mt], ext)
         w.call('pdesolver', 'solvePDE', v2, [Mt], ext)
         G = tuple(ZERO if k == 0 else w.t[k] for k in range(d))
+        if len(rec) < 2:
+            raise AbstractRaise('RuntimeError', 'solvePDE returned without handing the system to any solver')
         r2 = w.vector_at(rec[1][1], G)
         stale_seen = not any(isinstance(atom_key(a), tuple) and atom_key(a)[0] == 'cnew' for a in r2.atoms())
     except AbstractRaise as e:
